@@ -4,7 +4,7 @@ VARIABLES a, b, done
 Init == a \in Kinds /\ b \in Kinds /\ done = FALSE
 Next == ~done /\ done' = TRUE /\ UNCHANGED <<a, b>>
 Spec == Init /\ [][Next]_<<a, b, done>>
-Emit == done => PrintT(ToJson([a |-> a, b |-> b, r |-> Merge(a, b), rev |-> Merge(b, a), m1 |-> M1(a, b), m2 |-> M2(a, b)]))
+Emit == done => PrintT(ToJson([a |-> a, b |-> b, r |-> Merge(a, b), rinl |-> MergeInline(a, b), rev |-> Merge(b, a), m1 |-> M1(a, b), m2 |-> M2(a, b)]))
 LawM1 == done => M1(a, b)
 LawM2 == done => M2(a, b)
 =============================================================================
